@@ -6,6 +6,7 @@ CONSTANTS
   MaxSteps = 0
   MaxTerms = 5
   Emit = "none"
+  FillChoices <- MC_Fill0
   Bug = "none"
 CONSTRAINT Small
 VIEW View
